@@ -935,7 +935,7 @@ def _d_icmp6(d, off, end, ctx):
     _need(b, o, 4, end, "icmp6 error")
     e = d.layer("icmp6.err%d" % ty, o, o + 4)
     _flds(e, o, ("word", 4))
-    if end - (o + 4) >= 40 and (b[o + 4] >> 4) == 6:
+    if ty == 1 and end - (o + 4) >= 40 and (b[o + 4] >> 4) == 6:
       return _d_ipv6(d, o + 4, end, dict(ctx, embedded=True))
     d.payload = (o + 4, end)
     return
